@@ -39,6 +39,7 @@ func checkC07(p *Prog, r *Report) {
 	r.rule("C07.F7", "every path through a complete group seals every parity shard or calls skipParity, then resets shardCount and maxSize; sealData runs exactly once per encode", 3)
 	r.rule("C07.F8", "received data packets are fed to KCP.Input before and independently of fecDecoder.decode", 1)
 	r.rule("C07.F9", "paws = 0xffffffff / shardSize * shardSize at every store; ids advance modulo paws (C12.K5)", 3)
+	r.rule("C07.F15", "a sealed packet is the packet that is sent: the slice returned by an AEAD Seal (16 bytes longer than its input) is stored where the transmit step reads it — an element of the parity set, or a variable that is read afterwards; a result left in a loop variable or dropped sends parity without its tag, which the receiver's Open rejects before the FEC decoder sees it", 2)
 	r.rule("C07.F14", "what was reconstructed reaches the reader: after KCP.Input of recovered packets every path tests the availability and posts the wake-up token, whichever packet type completed the group (= C13.W5b) — recovered segments are acknowledged, so nothing else will ever wake a reader that is already blocked", 2)
 	r.rule("C07.F13", "shards survive until their group is complete: the eviction horizon (newest group id) is set from the first packet and invalidated by a retune (= C16.T9) — a stale or zero horizon evicts every shard as soon as it is stored and nothing is ever reconstructed", 2)
 	r.rule("C07.F12", "parity reaches the decoder on the listener path too: in Listener.packetInput a datagram from which no conversation id could be read (every parity packet) is fed to the session that exists for its source — no condition between the lookup and the feed requires hasConv", 1)
@@ -77,6 +78,7 @@ func checkC07(p *Prog, r *Report) {
 	checkListenerFeedsParity(p, r)
 	checkNewestGroupInit(p, r, "C07.F13")
 	delegate(p, r, "C13", checkC13, "C13.W5b", "C07.F14")
+	checkSealResultKept(p, r, "C07.F15")
 
 	// ---- F9: delegate to C12.K5
 	{
@@ -132,10 +134,92 @@ func aliasMap(p *Prog, fi *FuncInfo) map[types.Object]*Term {
 					m[v] = t
 				}
 			}
+			// a local that names a view of a buffer or the address of a container slot (payload := b[off:];
+			// slot := &x.cache[x.n]) — valid as long as nothing the expression mentions is written between the
+			// definition and a use
+			if (t.Op == "slice" || t.Op == "addr") && len(p.Assignments(fi, v)) == 1 && p.pureTerm(t) && p.viewStable(fi, as, v, t) {
+				m[v] = t
+			}
 		}
 		return true
 	})
 	return m
+}
+
+// viewStable: on no path from the definition def of the local v (= t) to a use of v is a field or variable
+// that t mentions written (directly or through a callee).
+func (p *Prog) viewStable(fi *FuncInfo, def ast.Node, v *types.Var, t *Term) bool {
+	c := p.CFG(fi)
+	defPt, ok := c.PointOf(def)
+	if !ok {
+		return false
+	}
+	flds := map[*types.Var]bool{}
+	vars := map[*types.Var]bool{}
+	bad := false
+	t.Walk(func(x *Term) {
+		switch x.Op {
+		case "fld":
+			if f, ok := x.Obj.(*types.Var); ok {
+				flds[f] = true
+			}
+		case "var":
+			if lv, ok := x.Obj.(*types.Var); ok {
+				vars[lv] = true
+			}
+		case "call", "deref":
+			bad = true
+		}
+	})
+	if bad {
+		return false
+	}
+	var uses []Point
+	okUses := true
+	inspectBody(fi, func(n ast.Node) bool {
+		if id, ok := n.(*ast.Ident); ok && p.Info.Uses[id] == types.Object(v) {
+			if pt, ok := c.PointOf(id); ok {
+				uses = append(uses, pt)
+			} else {
+				okUses = false
+			}
+		}
+		return true
+	})
+	if !okUses {
+		return false
+	}
+	isDef := func(_ ast.Node, q Point) bool { return q == defPt }
+	for _, q := range c.AllPoints() {
+		if q == defPt {
+			continue
+		}
+		writes := false
+		te := p.NodeTransEffects(q.Node())
+		for f := range flds {
+			if te.FieldW[f] {
+				writes = true
+			}
+		}
+		for lv := range vars {
+			if te.LocalW[lv] {
+				writes = true
+			}
+		}
+		if !writes || !c.Reaches(defPt, q) {
+			continue
+		}
+		for _, u := range uses {
+			if u == q {
+				continue
+			}
+			res := c.FindPath(PathQuery{From: Point{q.B, q.I + 1}, IsTarget: func(_ ast.Node, x Point) bool { return x == u }, IsBarrier: isDef})
+			if res.Found {
+				return false
+			}
+		}
+	}
+	return true
 }
 
 type elemStore struct {
@@ -732,8 +816,8 @@ func checkFECEncode(p *Prog, r *Report, fi *FuncInfo) {
 			return true
 		}
 		if f := p.Callee(call); f != nil && f.Name() == "PutUint16" && len(call.Args) == 2 {
-			d := p.Term(call.Args[0])
-			v := stripConvs(p.Term(call.Args[1]))
+			d := p.Term(call.Args[0]).Subst(al)
+			v := stripConvs(p.Term(call.Args[1]).Subst(al))
 			wantD := mk("slice", b, payloadOff, nil, nil)
 			wantV := mk("len", wantD)
 			okP := d.Key() == wantD.Key() && v.Key() == wantV.Key()
@@ -742,7 +826,7 @@ func checkFECEncode(p *Prog, r *Report, fi *FuncInfo) {
 			havePut = true
 		}
 		if p.BuiltinName(call) == "copy" && len(call.Args) == 2 {
-			d, s := p.Term(call.Args[0]).Subst(al), p.Term(call.Args[1])
+			d, s := p.Term(call.Args[0]).Subst(al), p.Term(call.Args[1]).Subst(al)
 			wantS := mk("slice", b, payloadOff, nil, nil)
 			wantD := mk("slice", mk("idx", shardCache, shardCount), payloadOff, nil, nil)
 			okC := d.Key() == wantD.Key() && s.Key() == wantS.Key()
@@ -752,8 +836,8 @@ func checkFECEncode(p *Prog, r *Report, fi *FuncInfo) {
 			for i := 0; i < pt.I; i++ {
 				if as, ok := pt.B.Nodes[i].(*ast.AssignStmt); ok && len(as.Lhs) == 1 && len(as.Rhs) == 1 {
 					slot := mk("idx", shardCache, shardCount)
-					if p.Term(as.Lhs[0]).Key() == slot.Key() {
-						rt := p.FactsOf(fi).AtNode(as).Resolve(p.Term(as.Rhs[0]))
+					if p.Term(as.Lhs[0]).Subst(al).Key() == slot.Key() {
+						rt := p.FactsOf(fi).AtNode(as).Resolve(p.Term(as.Rhs[0])).Subst(al)
 						okCut = rt.Op == "slice" && rt.Args[0].Key() == slot.Key() && rt.Args[1] == nil && rt.Args[2] != nil && rt.Args[2].Key() == mk("len", b).Key()
 					}
 				}
@@ -1429,4 +1513,93 @@ func checkListenerFeedsParity(p *Prog, r *Report) {
 		}
 	}
 	r.check(okFeed, "C07.F12", lp.Name, p.Pos(lp.Node), "parity fed to the existing session", "fed under !hasConv || conv == s.kcp.conv", why+": parity packets carry no KCP header, so none reaches the FEC decoder of an accepted session and lost data is never reconstructed on the listener side")
+}
+
+// checkSealResultKept: C07.F15.
+func checkSealResultKept(p *Prog, r *Report, rule string) {
+	n := 0
+	p.AllCalls(func(call *ast.CallExpr, fi *FuncInfo) {
+		f := p.Callee(call)
+		if f == nil || f.Name() != "Seal" || len(call.Args) != 4 {
+			return
+		}
+		root := rootFuncInfo(fi)
+		if root.Obj != nil && root.Obj.Name() == "Seal" {
+			return // the wrapper itself
+		}
+		n++
+		construct := fmt.Sprintf("result of Seal #%d in %s", n, fi.Name)
+		switch par := p.parents[call].(type) {
+		case *ast.AssignStmt:
+			if len(par.Lhs) != 1 {
+				r.bad(rule, fi.Name, p.Pos(call), construct, "unexpected assignment form", "")
+				return
+			}
+			switch lhs := ast.Unparen(par.Lhs[0]).(type) {
+			case *ast.IndexExpr:
+				r.ok(rule, fi.Name, p.Pos(call), construct, "stored into "+exprString(lhs))
+				return
+			case *ast.Ident:
+				v, _ := p.Info.ObjectOf(lhs).(*types.Var)
+				if v == nil {
+					break
+				}
+				// a range variable is re-bound at the next iteration: only reads later in the same body count
+				var body *ast.BlockStmt
+				for q := p.parents[ast.Node(par)]; q != nil; q = p.parents[q] {
+					if rs, ok := q.(*ast.RangeStmt); ok {
+						for _, e := range []ast.Expr{rs.Key, rs.Value} {
+							if id, ok := e.(*ast.Ident); ok && p.Info.ObjectOf(id) == types.Object(v) {
+								body = rs.Body
+							}
+						}
+					}
+					if _, ok := q.(*ast.FuncLit); ok {
+						break
+					}
+				}
+				used := false
+				c := p.CFG(fi)
+				from, okF := c.PointOf(par)
+				inspectBody(rootFuncInfo(fi), func(x ast.Node) bool {
+					id, ok := x.(*ast.Ident)
+					if !ok || p.Info.Uses[id] != types.Object(v) {
+						return true
+					}
+					// not the left-hand side of a plain assignment
+					if as, ok := p.parents[id].(*ast.AssignStmt); ok && as.Tok == token.ASSIGN {
+						for _, l := range as.Lhs {
+							if l == ast.Expr(id) {
+								return true
+							}
+						}
+					}
+					if body != nil {
+						if id.Pos() > par.End() && id.Pos() < body.End() && id.Pos() > body.Pos() {
+							used = true
+						}
+						return true
+					}
+					if to, okT := c.PointOf(id); okF && okT && c.Reaches(Point{from.B, from.I + 1}, to) {
+						used = true
+					}
+					return true
+				})
+				if used {
+					r.ok(rule, fi.Name, p.Pos(call), construct, "kept in "+v.Name()+", which is read afterwards")
+				} else {
+					r.bad(rule, fi.Name, p.Pos(call), construct, "the sealed slice is left in "+v.Name()+" and never read (a loop variable is re-bound at the next iteration): the packet goes out with the length it had before sealing, without its authentication tag — the receiver's Open fails and, for parity, no lost packet is ever reconstructed under an AEAD cipher", "")
+				}
+				return
+			}
+			r.bad(rule, fi.Name, p.Pos(call), construct, "the sealed slice is stored somewhere the transmit step cannot be shown to read", "")
+		case *ast.ReturnStmt:
+			r.ok(rule, fi.Name, p.Pos(call), construct, "returned to the caller")
+		default:
+			r.bad(rule, fi.Name, p.Pos(call), construct, "the slice returned by Seal is dropped: the packet goes out without its authentication tag", "")
+		}
+	})
+	if n == 0 {
+		r.ok(rule, "postProcess", "-", "Seal results", "no AEAD sealing in the package")
+	}
 }
